@@ -354,7 +354,16 @@ MAINLOOP:
 				watchingFile = true
 			}
 		}
-		ws.updateDirWatches(oldResolvedCfgDir, filepath.Dir(resolvedCfgPath))
+		if ws.updateDirWatches(oldResolvedCfgDir, filepath.Dir(resolvedCfgPath)) {
+			// The file was read before the watch on its new directory was
+			// in place, so a modification in between went unnoticed and
+			// nothing would ever tell us about it. Read it once more now
+			// that the watch exists (the checksum filters out the common
+			// case in which nothing changed).
+			if rereadVal, rereadErr := ws.Value(ctx, t); rereadErr == nil {
+				newVal, parseErr = rereadVal, nil
+			}
+		}
 
 		switch t := parseErr.(type) {
 		case nil:
@@ -375,21 +384,23 @@ MAINLOOP:
 
 }
 
-func (ws *WatchingSource) updateDirWatches(oldResolvedCfgDir, resolvedCfgDir string) {
+// updateDirWatches returns true if it added a watch for a new directory.
+func (ws *WatchingSource) updateDirWatches(oldResolvedCfgDir, resolvedCfgDir string) bool {
 	if oldResolvedCfgDir == resolvedCfgDir {
-		return
+		return false
 	}
 	// If the config's resolved directory has changed, make sure we
 	// remove the old watch after the new one is added so we don't lose change notifications
 	if addErr := ws.watcher.Add(resolvedCfgDir); addErr != nil {
 		ws.logger.Printf("failed to add new watch for symlink-resolved directory: %q: %s",
 			resolvedCfgDir, addErr)
-		return
+		return false
 	}
 	if removeErr := ws.watcher.Remove(oldResolvedCfgDir); removeErr != nil {
 		ws.logger.Printf("failed to remove old watch for old symlink-resolved directory: %q: %s",
 			oldResolvedCfgDir, removeErr)
 	}
+	return true
 }
 
 // StdLogger is an interface satisified by several logging types, including the
